@@ -1,4 +1,6 @@
 import RpmVerif.Lemmas.Builder
+import RpmVerif.Lemmas.BuilderFiles
+import RpmVerif.Lemmas.RpmValid
 import RpmVerif.Model.Accessors
 /-!
 # C06 — everything given to the builder is read back unchanged
@@ -7,7 +9,9 @@ import RpmVerif.Model.Accessors
 order). For every valid configuration (`Valid`: all record data canonical — NUL-free valid UTF-8,
 integers in range — and the header below 2 GiB) the written package re-parses to the very same value
 (`build_reparse`), so every accessor on the re-parsed package equals the accessor on the built header,
-and that is the value supplied to the builder (`readback_*`).
+and that is the value supplied to the builder (`readback_*`). The per-file data is also proved through the accessor
+users call, `get_file_entries()` (`readback_file_entries`, `…_build`, `…_reparsed`): one record per builder file with
+its exact path, mode, owner, group, clamped mtime, size, flags, digest, capabilities and link target.
 -/
 namespace RpmVerif.C06
 open RpmVerif.Hdr RpmVerif.Bld RpmVerif.Gen RpmVerif.Acc
@@ -390,7 +394,143 @@ theorem readback_paths (hne : x.c.files.isEmpty = false) (hd : ∀ f ∈ x.c.fil
   simp only [Bool.false_and, Bool.false_eq_true, if_false]
   exact filePaths_of_files _ _ hd
 
+/-! #### `get_file_entries`: the whole record of every file -/
+
+/-- the file sizes, whichever of the two encodings `prepare_data` chose: LONGFILESIZES (u64) for a package above the
+large-file threshold, else no LONGFILESIZES and FILESIZES (u32) — `get_file_entries` tries them in this order -/
+theorem readback_sizes (hne : x.c.files.isEmpty = false) :
+    (usesLargeFiles x.c = true ∧ getU64Array (hdrOf x) IndexTag.RPMTAG_LONGFILESIZES = .ok (x.c.files.map (·.size)))
+    ∨ (usesLargeFiles x.c = false ∧ getU64Array (hdrOf x) IndexTag.RPMTAG_LONGFILESIZES = .err "notfound"
+        ∧ getU32Array (hdrOf x) IndexTag.RPMTAG_FILESIZES = .ok (x.c.files.map (·.size))) := by
+  have m19 : (IndexTag.RPMTAG_LONGFILESIZES, fun x : Ctx => if x.c.files.isEmpty || !usesLargeFiles x.c then none
+      else some (IndexData.int64 (x.c.files.map (·.size)))) ∈ slots := mem_slot (i := 19) rfl
+  have m20 : (IndexTag.RPMTAG_FILESIZES, fun x : Ctx => if x.c.files.isEmpty || usesLargeFiles x.c then none
+      else some (IndexData.int32 (x.c.files.map (·.size)))) ∈ slots := mem_slot (i := 20) rfl
+  cases hl : usesLargeFiles x.c with
+  | true =>
+    have h : getWith IndexData.asU64Array (hdrOf x) IndexTag.RPMTAG_LONGFILESIZES = .ok (x.c.files.map (·.size)) :=
+      getter_of_slot IndexData.asU64Array (x := x) m19 (d := .int64 (x.c.files.map (·.size))) (by simp only [hne, hl]; rfl) rfl
+    exact .inl ⟨rfl, h⟩
+  | false =>
+    have h1 : getWith IndexData.asU64Array (hdrOf x) IndexTag.RPMTAG_LONGFILESIZES = .err "notfound" :=
+      getter_of_empty_slot IndexData.asU64Array (x := x) m19 (by simp only [hne, hl]; rfl)
+    have h2 : getWith IndexData.asU32Array (hdrOf x) IndexTag.RPMTAG_FILESIZES = .ok (x.c.files.map (·.size)) :=
+      getter_of_slot IndexData.asU32Array (x := x) m20 (d := .int32 (x.c.files.map (·.size))) (by simp only [hne, hl]; rfl) rfl
+    exact .inr ⟨rfl, h1, h2⟩
+
+/-- the capability array: present (one text per file, `""` for files without capabilities) exactly when some file has
+capabilities -/
+theorem readback_caps (hne : x.c.files.isEmpty = false) :
+    getStringArray (hdrOf x) IndexTag.RPMTAG_FILECAPS =
+      if usesCaps x.c then .ok (x.c.files.map fun f => f.caps.getD []) else .err "notfound" := by
+  have m37 : (IndexTag.RPMTAG_FILECAPS, fun x : Ctx => if x.c.files.isEmpty || !usesCaps x.c then none
+      else some (IndexData.strArray (x.c.files.map (fun f => f.caps.getD [])))) ∈ slots := mem_slot (i := 37) rfl
+  cases hc : usesCaps x.c with
+  | true =>
+    exact getter_of_slot IndexData.asStringArray (x := x) m37 (d := .strArray (x.c.files.map fun f => f.caps.getD []))
+        (a := x.c.files.map fun f => f.caps.getD []) (by simp only [hne, hc]; rfl) rfl
+  | false =>
+    exact getter_of_empty_slot IndexData.asStringArray (x := x) m37 (by simp only [hne, hc]; rfl)
+
+/-- the file digest algorithm of a package with files is 8 = SHA-256 -/
+theorem readback_digest_algo (hne : x.c.files.isEmpty = false) : getFileDigestAlgorithm (hdrOf x) = .ok 8 := by
+  have e : getU32 (hdrOf x) IndexTag.RPMTAG_FILEDIGESTALGO = .ok 8 :=
+    readback_file_array x IndexData.asU32 (i := 33) (f := fun _ => .int32 [8]) rfl hne rfl
+  simp only [getFileDigestAlgorithm, e, Out.bind_ok]
+  rfl
+
+/-- **get_file_entries** (any digest-length table that pairs SHA-256 with 64 hex characters): for EVERY configuration
+and clock, on the built header and any signature header without IMA signatures, `get_file_entries` returns one record
+per builder file, in file order, each carrying that file's destination path, mode, owner, group, clamped mtime, size
+(either size encoding), flags, SHA-256 digest, capabilities, link target — and `[]` for a package without files.
+Hypotheses: `hd` — every file's directory is in the directory set (`add_data` inserts it); `hdig` — every digest text
+is empty or 64 characters long (`add_data` stores a hex SHA-256). No validity hypothesis is needed at this level. -/
+theorem readback_file_entries_tbl {tbl : List (Nat × Nat)} (htbl : (8, 64) ∈ tbl) (sig : Header)
+    (hsig : getStringArray sig SigTag.RPMSIGTAG_FILESIGNATURES = .err "notfound")
+    (hd : ∀ f ∈ x.c.files, f.dir ∈ x.c.directories) (hdig : DigestsOk x.c) :
+    getFileEntries sig (hdrOf x) tbl = .ok (x.c.files.map (entryOf x)) := by
+  cases he : x.c.files.isEmpty with
+  | true =>
+    have hemp : x.c.files = [] := List.isEmpty_iff.mp he
+    have e : getU16Array (hdrOf x) IndexTag.RPMTAG_FILEMODES = .err "notfound" :=
+      getter_of_empty_slot IndexData.asU16Array (x := x)
+        (s := (IndexTag.RPMTAG_FILEMODES, whenFiles fun x => .int16 (x.c.files.map (·.mode)))) (mem_slot (i := 21) rfl)
+        (if_pos he)
+    simp only [getFileEntries, e, isNotFound, if_true, hemp, List.map_nil]
+  | false =>
+    have hcapsget := readback_caps x he
+    have hb := fun caps cap => buildEntries_files htbl caps (fun f => pathJoin f.dir f.baseName)
+        (fun f => clampMtime x.c.sourceDate f.mtime) cap x.c.files hdig 0
+    have hent : entryOf x = fun f => ⟨pathJoin f.dir f.baseName, f.mode, f.user, f.group, clampMtime x.c.sourceDate f.mtime,
+        f.size, f.flags, digestExp f.shaHex, if usesCaps x.c then some (f.caps.getD []) else none, f.link, none⟩ := rfl
+    rw [hent]
+    cases hc : usesCaps x.c with
+    | true =>
+      simp only [hc, if_true] at hcapsget
+      have hb' := hb (some (x.c.files.map fun f => f.caps.getD [])) (fun f => some (f.caps.getD [])) (caps_lookup x.c.files)
+      rcases readback_sizes x he with ⟨_, hs⟩ | ⟨_, hs1, hs2⟩
+      · simp only [getFileEntries, readback_digest_algo x he, readback_modes x he, readback_users x he, readback_groups x he,
+          readback_digests x he, readback_mtimes x he, hs, readback_fileflags x he, hcapsget,
+          readback_linktos x he, readback_paths x he hd, hsig, optStrings, isNotFound, Bool.false_eq_true, if_false, Out.bind_ok, if_true]
+        exact hb'
+      · simp only [getFileEntries, readback_digest_algo x he, readback_modes x he, readback_users x he, readback_groups x he,
+          readback_digests x he, readback_mtimes x he, hs1, hs2, readback_fileflags x he, hcapsget,
+          readback_linktos x he, readback_paths x he hd, hsig, optStrings, isNotFound, Bool.false_eq_true, if_false, Out.bind_ok, if_true]
+        exact hb'
+    | false =>
+      simp only [hc, Bool.false_eq_true, if_false] at hcapsget
+      have hb' := hb none (fun _ => none) (fun _ _ => rfl)
+      rcases readback_sizes x he with ⟨_, hs⟩ | ⟨_, hs1, hs2⟩
+      · simp only [getFileEntries, readback_digest_algo x he, readback_modes x he, readback_users x he, readback_groups x he,
+          readback_digests x he, readback_mtimes x he, hs, readback_fileflags x he, hcapsget,
+          readback_linktos x he, readback_paths x he hd, hsig, optStrings, isNotFound, Bool.false_eq_true, if_false, Out.bind_ok]
+        exact hb'
+      · simp only [getFileEntries, readback_digest_algo x he, readback_modes x he, readback_users x he, readback_groups x he,
+          readback_digests x he, readback_mtimes x he, hs1, hs2, readback_fileflags x he, hcapsget,
+          readback_linktos x he, readback_paths x he hd, hsig, optStrings, isNotFound, Bool.false_eq_true, if_false, Out.bind_ok]
+        exact hb'
+
+/-- **readback_file_entries**: `get_file_entries` as the library calls it (the digest-length table of the source) -/
+theorem readback_file_entries (sig : Header)
+    (hsig : getStringArray sig SigTag.RPMSIGTAG_FILESIGNATURES = .err "notfound")
+    (hd : ∀ f ∈ x.c.files, f.dir ∈ x.c.directories) (hdig : DigestsOk x.c) :
+    getFileEntries sig (hdrOf x) = .ok (x.c.files.map (entryOf x)) :=
+  readback_file_entries_tbl x sha256_in_table sig hsig hd hdig
+
 end readback
+
+/-! #### `get_file_entries` on the packages the library returns -/
+
+/-- the destination a `FileEntry` reports is the archive (cpio) name without its leading `.`, for files as
+`add_data` stores them (C17: the directory ends with `/`, the base name does not start with `/`, the archive
+name is `"." ++ dir ++ base name`) -/
+theorem entryOf_path_cpio (x : Ctx) (f : FileE) (hlast : f.dir.getLast? = some 47) (hbase : f.baseName.head? ≠ some 47)
+    (hp : f.cpioPath = [46] ++ (f.dir ++ f.baseName)) :
+    (entryOf x f).path = f.dir ++ f.baseName ∧ f.cpioPath = 46 :: (entryOf x f).path := by
+  have e : (entryOf x f).path = f.dir ++ f.baseName := by
+    simp [entryOf, pathJoin, hbase, hlast]
+  exact ⟨e, by rw [e, hp]; rfl⟩
+
+/-- **`PackageBuilder::build`**: `get_file_entries` on the package `build` returns (its signature header carries the
+header digest only) lists exactly the builder's files — every clock value, hash function, archive and payload -/
+theorem readback_file_entries_build (c : Cfg) (now : Nat) (sha256hex : Bytes → Bytes) (archive payload : Bytes)
+    (hd : ∀ f ∈ c.files, f.dir ∈ c.directories) (hdig : DigestsOk c) :
+    getFileEntries (build c now sha256hex archive payload).md.signature (build c now sha256hex archive payload).md.header
+      = .ok (c.files.map (entryOf (mkCtx c now (sha256hex payload) (sha256hex archive)))) :=
+  readback_file_entries (mkCtx c now (sha256hex payload) (sha256hex archive)) _
+    (signatureHeader_no_ima [] _ (fun _ h => by cases h)) hd hdig
+
+/-- **build → write → parse → `get_file_entries`**: for every valid configuration, any signature header
+`from_entries` can produce that has no IMA signatures, and any payload, the written package parses (to the built
+value) and `get_file_entries` on the PARSED package returns the builder's files -/
+theorem readback_file_entries_reparsed {x : Ctx} (v : Valid x) {sigRecs : List (Nat × IndexData)}
+    (vs : RecsOk sigRecs SigTag.HEADER_SIGNATURES)
+    (hsig : getStringArray (fromEntries sigRecs SigTag.HEADER_SIGNATURES) SigTag.RPMSIGTAG_FILESIGNATURES = .err "notfound")
+    (payload : Bytes) (hd : ∀ f ∈ x.c.files, f.dir ∈ x.c.directories) (hdig : DigestsOk x.c) :
+    ∃ p', parsePackage (writePackage ⟨⟨leadNew x.c.name, fromEntries sigRecs SigTag.HEADER_SIGNATURES, hdrOf x⟩, payload⟩) = .ok p'
+      ∧ p'.content = payload
+      ∧ getFileEntries p'.md.signature p'.md.header = .ok (x.c.files.map (entryOf x)) :=
+  ⟨_, build_reparse v vs payload, rfl, readback_file_entries x _ hsig hd hdig⟩
 
 /-! ### non-vacuity: a concrete valid configuration (multi-byte summary, one file, a scriptlet, gzip) -/
 instance : DecidablePred (fun s : Bytes => StrOk s) := fun s => by unfold StrOk; exact inferInstance
@@ -413,5 +553,68 @@ example : 40 < (recordsOf sampleCtx).length := by decide +kernel
 example : getString (hdrOf sampleCtx) IndexTag.RPMTAG_PACKAGER = .ok [112] := readback_packager sampleCtx
 example : getDependencies (hdrOf sampleCtx) IndexTag.RPMTAG_REQUIRENAME IndexTag.RPMTAG_REQUIREFLAGS IndexTag.RPMTAG_REQUIREVERSION =
     .ok ((allRequires sampleCfg).map Dep.toAcc) := (readback_requires sampleCtx).1
+
+/-! ### non-vacuity for `get_file_entries`: three files in two directories — a regular file with capabilities
+(mtime after the source date: clamped), a plain file (mtime before it: kept), a symbolic-link entry (mode 0120777,
+link target, empty digest), owners root / root and u / g — in both size encodings -/
+def sha64 : Bytes := List.replicate 64 97
+def sampleFiles2 : List FileE :=
+  [ ⟨[46, 47, 101, 116, 99, 47, 97], [47, 101, 116, 99, 47], [97], 3, 33188, sRoot, sRoot, [], 1, some [99, 61, 112], 4294967295, 1700000000, sha64⟩,
+    ⟨[46, 47, 101, 116, 99, 47, 98], [47, 101, 116, 99, 47], [98], 5, 33261, [117], [103], [], 0, none, 4294967295, 1500000000, sha64⟩,
+    ⟨[46, 47, 117, 47, 108], [47, 117, 47], [108], 1, 41471, sRoot, sRoot, [97], 0, none, 4294967295, 1600000001, []⟩ ]
+def sampleCfg2 : Cfg := { sampleCfg with files := sampleFiles2, directories := [[47, 101, 116, 99, 47], [47, 117, 47]] }
+def sampleCfg2L : Cfg := { sampleCfg2 with largeFileThreshold := 8 }
+def sampleCtx2 : Ctx := ⟨sampleCfg2, 1600000000, [97], [98]⟩
+def sampleCtx2L : Ctx := ⟨sampleCfg2L, 1600000000, [97], [98]⟩
+/-- what `get_file_entries` must return for them -/
+def sampleEntries2 : List FileEntry :=
+  [ ⟨[47, 101, 116, 99, 47, 97], 33188, sRoot, sRoot, 1600000000, 3, 1, some (8, sha64), some [99, 61, 112], [], none⟩,
+    ⟨[47, 101, 116, 99, 47, 98], 33261, [117], [103], 1500000000, 5, 0, some (8, sha64), some [], [], none⟩,
+    ⟨[47, 117, 47, 108], 41471, sRoot, sRoot, 1600000000, 1, 0, none, some [], [97], none⟩ ]
+
+example : usesCaps sampleCfg2 = true ∧ usesLargeFiles sampleCfg2 = false ∧ usesLargeFiles sampleCfg2L = true := by decide
+example : sampleCfg2.files.map (entryOf sampleCtx2) = sampleEntries2 := by decide +kernel
+example : sampleCfg2L.files.map (entryOf sampleCtx2L) = sampleEntries2 := by decide +kernel
+example : DigestsOk sampleCfg2 := by decide
+/-- every stored file has the `add_data` shape, so the reported path is the archive name without the `.` -/
+example : ∀ f ∈ sampleFiles2, f.cpioPath = 46 :: (entryOf sampleCtx2 f).path := by
+  intro f hf
+  refine (entryOf_path_cpio sampleCtx2 f ?_ ?_ ?_).2 <;>
+    (simp only [sampleFiles2, List.mem_cons, List.not_mem_nil, or_false] at hf; rcases hf with rfl | rfl | rfl <;> decide)
+
+/-- the getter-level theorem, FILESIZES encoding, the signature header of `build` -/
+example : getFileEntries (signatureHeader [] (some [97])) (hdrOf sampleCtx2) = .ok sampleEntries2 :=
+  (show sampleCfg2.files.map (entryOf sampleCtx2) = sampleEntries2 by decide +kernel) ▸
+    readback_file_entries sampleCtx2 _ (signatureHeader_no_ima [] _ (fun _ h => by cases h)) (by decide) (by decide)
+/-- … LONGFILESIZES encoding, a signed package's signature header (RSA legacy tag) -/
+example : getFileEntries (signatureHeader [(SigTag.RPMSIGTAG_RSA, [1], [65])] (some [97])) (hdrOf sampleCtx2L) = .ok sampleEntries2 :=
+  (show sampleCfg2L.files.map (entryOf sampleCtx2L) = sampleEntries2 by decide +kernel) ▸
+    readback_file_entries sampleCtx2L _ (signatureHeader_no_ima _ _ (fun _ h => by cases h; decide)) (by decide) (by decide)
+/-- … and the package without files -/
+example : getFileEntries (signatureHeader [] none) (hdrOf ⟨{ sampleCfg with files := [], directories := [] }, 0, [], []⟩) = .ok [] :=
+  readback_file_entries ⟨{ sampleCfg with files := [], directories := [] }, 0, [], []⟩ _
+    (signatureHeader_no_ima [] _ (fun _ h => by cases h)) (fun _ h => by cases h) (fun _ h => by cases h)
+example : getFileEntries (build sampleCfg2 1700000123 (fun _ => [97]) [] []).md.signature
+    (build sampleCfg2 1700000123 (fun _ => [97]) [] []).md.header = .ok sampleEntries2 :=
+  (show sampleCfg2.files.map (entryOf sampleCtx2) = sampleEntries2 by decide +kernel) ▸
+    readback_file_entries_build sampleCfg2 1700000123 (fun _ => [97]) [] [] (by decide) (by decide)
+
+theorem sample2_valid : Valid sampleCtx2 := by
+  refine ⟨by decide +kernel, by decide +kernel, by decide, by decide +kernel, ?_⟩
+  have h := fromEntries_store_le (recordsOf sampleCtx2) IndexTag.RPMTAG_HEADERIMMUTABLE
+  have : (List.map (fun r => r.2.enc.length + 7) (recordsOf sampleCtx2)).sum + 16 < 2147483648 := by decide +kernel
+  omega
+theorem sample2_sig_ok : RecsOk [(SigTag.RPMSIGTAG_SHA256, .str [97])] SigTag.HEADER_SIGNATURES := by
+  refine ⟨by decide +kernel, by decide +kernel, by decide, by decide, ?_⟩
+  have h := fromEntries_store_le [(SigTag.RPMSIGTAG_SHA256, IndexData.str [97])] SigTag.HEADER_SIGNATURES
+  have : (List.map (fun r : Nat × IndexData => r.2.enc.length + 7) [(SigTag.RPMSIGTAG_SHA256, IndexData.str [97])]).sum + 16 < 2147483648 := by
+    decide +kernel
+  omega
+/-- the write → parse theorem at the sample: all hypotheses hold -/
+example : ∃ p', parsePackage (writePackage ⟨⟨leadNew sampleCfg2.name, fromEntries [(SigTag.RPMSIGTAG_SHA256, .str [97])]
+      SigTag.HEADER_SIGNATURES, hdrOf sampleCtx2⟩, [1, 2, 3]⟩) = .ok p' ∧ p'.content = [1, 2, 3]
+    ∧ getFileEntries p'.md.signature p'.md.header = .ok (sampleCfg2.files.map (entryOf sampleCtx2)) :=
+  readback_file_entries_reparsed sample2_valid sample2_sig_ok
+    (signatureHeader_no_ima [] (some [97]) (fun _ h => by cases h)) [1, 2, 3] (by decide) (by decide)
 
 end RpmVerif.C06
